@@ -482,7 +482,8 @@ class ClientSSM(SSM):
         elif (apdu.apduType == SimpleAckPDU.pduType):
             if _debug: ClientSSM._debug("    - simple ack")
 
-            if not self.sentAllSegments:
+            # while a retry is being sent this may be the answer to the previous, complete attempt
+            if (not self.sentAllSegments) and (not self.retryCount):
                 abort = self.abort(AbortReason.invalidApduInThisState)
                 self.request(abort)     # send it to the device
                 self.response(abort)    # send it to the application
@@ -493,7 +494,7 @@ class ClientSSM(SSM):
         elif (apdu.apduType == ComplexAckPDU.pduType):
             if _debug: ClientSSM._debug("    - complex ack")
 
-            if not self.sentAllSegments:
+            if (not self.sentAllSegments) and (not self.retryCount):
                 abort = self.abort(AbortReason.invalidApduInThisState)
                 self.request(abort)     # send it to the device
                 self.response(abort)    # send it to the application
